@@ -443,9 +443,22 @@ Definition sbv_segments (ids : list ident) (s : sortspec) (vals svals : list sva
     map Z.of_nat bottom;
     (if s_desc s then [] else subs) ].
 
+(* tuple(dict.fromkeys(seq)): every index once, at the place of its first mention.  (The dict
+   inserts a key when it is not there yet: [first_mentions (l ++ [z])] is [first_mentions l]
+   when z is in l and [first_mentions l ++ [z]] otherwise - Proofs/SbvDedup.v first_mentions_snoc.) *)
+Fixpoint first_mentions (l : list Z) : list Z :=
+  match l with
+  | [] => []
+  | z :: t => z :: filter (fun y => negb (Z.eqb y z)) (first_mentions t)
+  end.
+
+(* SortByValueCollator._display_order: the five segments concatenated, the hidden elements
+   filtered out, THEN de-duplicated (since the repair of finding C05-fixed-repeats: an element
+   named more than once in fixed.top / fixed.bottom is shown once, where it is first mentioned) *)
 Definition sbv_display (d : dimension) (s : sortspec) (vals svals : list sval)
            (empties : list nat) : list Z :=
-  displayed (collator_hidden d empties) (List.concat (sbv_segments (d_ids d) s vals svals)).
+  first_mentions
+    (displayed (collator_hidden d empties) (List.concat (sbv_segments (d_ids d) s vals svals))).
 
 (* ---------------------------------------------------------------------------------------
    order helpers: dispatch, fallback, subtotal pruning
@@ -523,8 +536,8 @@ Definition run_dim (d : dimension) (o : ordering) (empties : list nat) (psub : b
   ++ r_res (r_seq r_ident) (bind signed (fun l => Ok (codes d l)))
   ++ r_zs (map fst (subtotals d)).
 
-(* the segments of a sort-by-value order after the hidden filter (for near-tie tolerant
-   comparison in the C08 check) *)
+(* the segments of a sort-by-value order after the hidden filter and BEFORE the
+   de-duplication of [sbv_display] (for near-tie tolerant comparison in the C08 check) *)
 Definition run_sbv_segments (d : dimension) (s : sortspec) (vals svals : list sval)
            (empties : list nat) : list Z :=
   r_seq (fun seg => r_zs (displayed (collator_hidden d empties) seg))
